@@ -14,7 +14,7 @@ package hashprefix
 //vx:stub time.Now vxC19Now
 //vx:note SHA-256 is an uninterpreted function (fresh symbolic 32-byte value per distinct input, so collisions of prefixes and of whole hashes between different names and with database entries are inside); the public-suffix table is a stub returning the last k labels (k symbolic, 1..min(labels,4)) and a symbolic ICANN bit
 //vx:note lookup service = harness fake holding a database D of symbolic full hashes; it answers exactly the members of D whose 2-byte prefix was asked (own hex codec, independent of encoding/hex), as one TXT RR per hash or all in one RR, next to a non-TXT RR and one malformed string (wrong length, or 64 characters with a non-hex one)
-//vx:note cache = harness fake of golibs cache.Cache that never evicts (eviction policy is outside); clock = stub of time.Now, constant within one Check, advancing by a symbolic amount between checks; cache time symbolic in [0,48h]
+//vx:note Names/Verdict entries: one check against a cache that holds nothing.  Cache entry: cache = harness fake of golibs cache.Cache that never evicts (eviction policy is outside); clock = stub of time.Now, constant within one Check, advancing by a symbolic amount between checks; cache time symbolic in [0,48h]
 //vx:note Lookup entry (fresh cache): host of 1..6 (thorough 1..8) labels of 1..2 symbolic ASCII bytes, |D| <= 2 (thorough 3).  Cache entry: 2 (thorough 3) checks sharing one cache; later hosts are the same name, a parent, a child, a sibling or an unrelated name; D is replaced by an arbitrary new database exactly when the clock has passed the previous check's time + cache time (entries of that check must have expired), otherwise it stays
 //vx:note outside: SHA-256 itself, the public-suffix table (ICANN suffixes longer than 4 labels do not exist), cache eviction, upstream errors, a service that answers hashes that were not asked for, concurrent checks
 
@@ -75,8 +75,10 @@ var vxC19Clock time.Time
 
 func vxC19Now() time.Time { return vxC19Clock }
 
-// ---- cache fake: a list of pairs, no eviction ----
+// ---- cache fakes ----
 
+// vxC19CacheT keeps every Set in a log (no eviction); Get returns the newest
+// value stored under an equal key.  Only Get compares keys (path forks).
 type vxC19CacheT struct {
 	keys, vals [][]byte
 }
@@ -92,30 +94,17 @@ func vxC19BytesEq(a, b []byte) bool {
 	return eq
 }
 
-func (c *vxC19CacheT) find(key []byte) int {
-	for i, k := range c.keys {
-		if vxC19BytesEq(k, key) {
-			return i
-		}
-	}
-	return -1
-}
-
 func (c *vxC19CacheT) Set(key, val []byte) bool {
-	k := append([]byte{}, key...)
-	v := append([]byte{}, val...)
-	if i := c.find(key); i >= 0 {
-		c.vals[i] = v
-		return true
-	}
-	c.keys = append(c.keys, k)
-	c.vals = append(c.vals, v)
+	c.keys = append(c.keys, append([]byte{}, key...))
+	c.vals = append(c.vals, append([]byte{}, val...))
 	return false
 }
 
 func (c *vxC19CacheT) Get(key []byte) []byte {
-	if i := c.find(key); i >= 0 {
-		return append([]byte{}, c.vals[i]...)
+	for i := len(c.keys) - 1; i >= 0; i-- {
+		if vxC19BytesEq(c.keys[i], key) {
+			return append([]byte{}, c.vals[i]...)
+		}
 	}
 	return nil
 }
@@ -123,6 +112,20 @@ func (c *vxC19CacheT) Get(key []byte) []byte {
 func (c *vxC19CacheT) Del(key []byte)         {}
 func (c *vxC19CacheT) Clear()                 { c.keys, c.vals = nil, nil }
 func (c *vxC19CacheT) Stats() (s cache.Stats) { return s }
+
+// vxC19NoCache forgets everything at once (a cache is allowed to): used where
+// a single check against an empty cache is examined.
+type vxC19NoCache struct{ sets int }
+
+func (c *vxC19NoCache) Set(key, val []byte) bool {
+	vx.Assert(len(key) == 2 && len(val) >= 8 && (len(val)-8)%32 == 0, "cache entries are keyed by the 2-byte prefix and hold expiry + whole hashes")
+	c.sets++
+	return false
+}
+func (c *vxC19NoCache) Get(key []byte) []byte  { return nil }
+func (c *vxC19NoCache) Del(key []byte)         {}
+func (c *vxC19NoCache) Clear()                 {}
+func (c *vxC19NoCache) Stats() (s cache.Stats) { return s }
 
 // ---- own hex encoder (table look-up: no path fork on symbolic bytes) ----
 
@@ -142,6 +145,7 @@ func vxC19Hex(dst, src []byte) []byte {
 type vxC19Service struct {
 	suffix string
 	db     [][32]byte
+	dbhex  []string // lower-case hex of db, as transmitted
 	// bad is a malformed TXT string delivered with every answer (hasBad).
 	hasBad bool
 	bad    string
@@ -175,15 +179,13 @@ func (u *vxC19Service) Exchange(req *dns.Msg) (resp *dns.Msg, err error) {
 	if u.hasBad {
 		txts = append(txts, u.bad)
 	}
-	for i := range u.db {
-		d := u.db[i]
-		want := string(vxC19Hex(nil, d[:2]))
+	for _, hx := range u.dbhex {
 		asked := false
 		for _, ch := range chunks {
-			asked = vx.Or(asked, ch == want)
+			asked = vx.Or(asked, ch == hx[:4])
 		}
 		if asked {
-			txts = append(txts, string(vxC19Hex(nil, d[:])))
+			txts = append(txts, hx)
 		}
 	}
 
@@ -223,24 +225,43 @@ func vxC19SymPos() []int {
 	return []int{0, 1, 2, 31}
 }
 
-func vxC19Hash(tag string, n int) []byte {
-	h := make([]byte, n)
+// vxC19Digit is a symbolic lower-case hex digit.
+func vxC19Digit(tag string) byte {
+	c := vx.Byte(tag)
+	vx.Assume(vx.Or(vx.And('0' <= c, c <= '9'), vx.And('a' <= c, c <= 'f')))
+	return c
+}
+
+// vxC19Rev maps a character to its value as a hex digit, 0xff for the others
+// (own decoding table, filled by vxC19Reset).
+var vxC19Rev [256]byte
+
+// vxC19Val is the value of a hex digit.
+func vxC19Val(c byte) byte { return vxC19Rev[c] }
+
+// vxC19Hash returns a 32-byte value and its lower-case hex form as the service
+// transmits it.  The symbolic bytes are given by two symbolic hex digits each.
+func vxC19Hash(tag string) (h [32]byte, hx []byte) {
 	for i := range h {
 		h[i] = byte(0x41 + 5*i)
 	}
+	hx = vxC19Hex(nil, h[:])
 	for _, p := range vxC19SymPos() {
-		h[p] = vx.Byte(tag)
+		hi, lo := vxC19Digit(tag), vxC19Digit(tag)
+		hx[2*p], hx[2*p+1] = hi, lo
+		h[p] = vxC19Val(hi)<<4 | vxC19Val(lo)
 	}
-	return h
+	return h, hx
 }
 
-func vxC19DB(tag string, n int) (db [][32]byte) {
+// setDB replaces the database by n fresh hashes.
+func (u *vxC19Service) setDB(tag string, n int) {
+	u.db, u.dbhex = nil, nil
 	for i := 0; i < n; i++ {
-		var h [32]byte
-		copy(h[:], vxC19Hash(tag, 32))
-		db = append(db, h)
+		h, hx := vxC19Hash(tag)
+		u.db = append(u.db, h)
+		u.dbhex = append(u.dbhex, string(hx))
 	}
-	return db
 }
 
 // vxC19Expected is the reference for the set of names whose hashes take part
@@ -298,6 +319,15 @@ func vxC19SetClock(sec, nsec int64) { vxC19Clock = time.Unix(sec, nsec) }
 
 func vxC19Reset() {
 	vxC19Sha = nil
+	for i := range vxC19Rev {
+		vxC19Rev[i] = 0xff
+	}
+	for i := 0; i < 16; i++ {
+		vxC19Rev[vxC19Digits[i]] = byte(i)
+	}
+	for i := 10; i < 16; i++ {
+		vxC19Rev[vxC19Digits[i]-'a'+'A'] = byte(i)
+	}
 	dns.Id = func() uint16 { return 7 }
 }
 
@@ -307,7 +337,7 @@ func vxC19Bad(kind, pos int) string {
 	case 1:
 		// 64 characters: the hex form of a hash with one character replaced
 		// by a non-hex one
-		b := vxC19Hex(nil, vxC19Hash("badhash", 32))
+		_, b := vxC19Hash("badhash")
 		c := vx.Byte("badchar")
 		isHex := vx.Or(vx.And('0' <= c, c <= '9'), vx.Or(vx.And('a' <= c, c <= 'f'), vx.And('A' <= c, c <= 'F')))
 		vx.Assume(!isHex)
@@ -315,10 +345,13 @@ func vxC19Bad(kind, pos int) string {
 		return string(b)
 	case 2:
 		// too short: 62 hex digits
-		return string(vxC19Hex(nil, vxC19Hash("badhash", 32)[:31]))
+		_, b := vxC19Hash("badhash")
+		return string(b[:62])
 	default:
 		// too long: two hashes in one string
-		return string(vxC19Hex(nil, append(vxC19Hash("badhash", 32), vxC19Hash("badhash", 32)...)))
+		_, b1 := vxC19Hash("badhash")
+		_, b2 := vxC19Hash("badhash")
+		return string(b1) + string(b2)
 	}
 }
 
@@ -328,7 +361,7 @@ func vxC19One(labels []string, svc *vxC19Service) {
 	n := len(labels)
 	host := strings.Join(labels, ".")
 	vxC19SetClock(vxC19Base, 0)
-	ca := &vxC19CacheT{}
+	ca := &vxC19NoCache{}
 	c := &Checker{upstream: svc, cache: ca, svc: "vx", txtSuffix: svc.suffix, cacheTime: 30 * time.Minute}
 
 	// reference first: it also fixes the hash values of the names
@@ -400,7 +433,7 @@ func vxC19Names() {
 		vxC19Suffix.labels = 1 + vx.Choice("suffixlabels", maxSuf)
 	}
 	svc := &vxC19Service{suffix: "sb.dns.adguard.com.", layout: n % 2}
-	svc.db = vxC19DB("db", 1)
+	svc.setDB("db", 1)
 	vxC19One(labels, svc)
 }
 
@@ -420,7 +453,7 @@ func vxC19Verdict() {
 	vxC19Suffix.icann = false
 	svc := &vxC19Service{suffix: "sb.dns.adguard.com."}
 	dbsize := vx.Choice("dbsize", maxDB+1)
-	svc.db = vxC19DB("db", dbsize)
+	svc.setDB("db", dbsize)
 	if vx.Thorough() {
 		svc.layout = vx.Choice("layout", 2)
 		if kind := vx.Choice("bad", 4); kind > 0 {
@@ -443,18 +476,26 @@ func vxC19Verdict() {
 // vxC19Cache: a sequence of checks sharing one cache.
 func vxC19Cache() {
 	vxC19Reset()
-	checks, maxDB, maxLabels := 2, 2, 2
+	checks, maxDB, maxLabels := 2, 1, 1
+	relations := []int{0, 2, 4}
 	if vx.Thorough() {
-		checks, maxDB, maxLabels = 3, 2, 3
+		maxDB, maxLabels = 2, 2
+		relations = []int{0, 1, 2, 3, 4}
 	}
 	svc := &vxC19Service{suffix: "pc.dns.adguard.com.", layout: 1}
 	ca := &vxC19CacheT{}
-	cacheTime := vx.Int64("cachetime")
+	// cache time: whole seconds (thorough: any duration) up to 48 h
+	cacheTime := vx.Int64("cachesec") * 1_000_000_000
 	vx.Assume(vx.And(0 <= cacheTime, cacheTime <= int64(48*time.Hour)))
+	if vx.Thorough() {
+		sub := vx.Int64("cachensec")
+		vx.Assume(vx.And(0 <= sub, sub < 1_000_000_000))
+		cacheTime += sub
+	}
 	c := &Checker{upstream: svc, cache: ca, svc: "vx", txtSuffix: svc.suffix, cacheTime: time.Duration(cacheTime)}
 
 	dbsize := 1 + vx.Choice("dbsize", maxDB)
-	svc.db = vxC19DB("db", dbsize)
+	svc.setDB("db", dbsize)
 
 	sec, nsec := vxC19Base+vx.Int64("t0"), vx.Int64("ns")
 	vx.Assume(vx.And(0 <= sec-vxC19Base, sec-vxC19Base < 1_000_000))
@@ -469,7 +510,7 @@ func vxC19Cache() {
 				labels = append(labels, vxC19Label("host", 1))
 			}
 		} else {
-			switch vx.Choice("relation", 5) {
+			switch relations[vx.Choice("relation", len(relations))] {
 			case 0: // the same name
 			case 1: // the parent
 				vx.Assume(len(labels) > 1)
@@ -497,14 +538,14 @@ func vxC19Cache() {
 			if now > prev+cacheTime {
 				vx.Reach("expired")
 				expired = true
-				svc.db = vxC19DB("db", dbsize)
+				svc.setDB("db", dbsize)
 			} else {
 				vx.Reach("fresh")
 			}
 		}
 		host := strings.Join(labels, ".")
 		vxC19Suffix.labels = 1
-		vxC19Suffix.icann = vx.Bool("icann")
+		vxC19Suffix.icann = false
 		vxC19SetClock(sec, nsec)
 
 		own := vxC19Expected(labels, 1, vxC19Suffix.icann)
